@@ -1,6 +1,6 @@
 (** Commands.v — the command table of the model runner. Every command maps
     a [val] to a [val]; the OCaml driver only parses and prints. *)
-From JSL Require Import Base Instance Dstate Filters World Observers Session Feasible Derived QuerySpec FilterSpec.
+From JSL Require Import Base Instance Dstate Filters World Observers Session Feasible Derived QuerySpec FilterSpec Search.
 From JSL Require CmdC03 CmdC04 CmdC11 CmdC12 CmdC14 CmdC15 CmdC16 CmdC17 CmdC18 CmdC19 CmdC20.
 
 Definition cmd_feasible (v : val) : val :=
@@ -49,6 +49,11 @@ Definition cmd_spec_filters (v : val) : val :=
                     VL [vlist enc_key r; vbool (sublistb r L)])
           (asL (vnth v 1))).
 
+(** best makespan over filtered / all dispatch histories. [I] -> [[opt_filtered]; [opt_unfiltered]] *)
+Definition cmd_search (v : val) : val :=
+  let I := dec_instance (vnth v 0) in
+  VL [vopt VI (opt_filtered I); vopt VI (opt_unfiltered I)].
+
 (** Commands < 100: the dispatcher world (this file). Commands [100*k + n]:
     property Ck's own table ([CmdCk.run_ck n]). *)
 Definition run_core (c : Z) (v : val) : val :=
@@ -60,6 +65,7 @@ Definition run_core (c : Z) (v : val) : val :=
   | 5 => cmd_tracking v
   | 6 => cmd_forced v
   | 7 => cmd_spec_filters v
+  | 8 => cmd_search v
   | _ => VL []
   end.
 
